@@ -127,6 +127,11 @@ def _(A, R):
                                           new.trees.valarr[k] == old.trees.valarr[k],
                                           new.maps.valarr[k] == old.maps.valarr[k],
                                           new.langs.valarr[k] == old.langs.valarr[k])))),
+        # what the callers rely on (IncludeNode passes the includer's recorded language on, "irrespective of file
+        # extension"; find() passes none for compiled files): a given language wins, else the file name decides
+        ("new-file-records-the-given-language-else-the-one-its-name-selects",
+         z3.Implies(z3.Not(present),
+                    new.langs.valarr[rp] == z3.If(ops.truth(R.st, A.language), ops.coerce(R.st, A.language, OLANG).t, lang_of(rp)))),
         ("new-file-starts-with-an-empty-association",
          z3.Implies(z3.Not(present), new.maps.valarr[rp] == z3.K(NODE.sort(), z3.K(P.sort(), z3.BoolVal(False))))),
     ]
